@@ -1080,6 +1080,12 @@ class Enumerator:
         ct = const_truth(it)
         if ct is not None:
             return ct
+        if isinstance(it, ast.Call) and not it.args and not it.keywords:
+            mc = method_call(it)
+            if mc and mc[1] in ('items', 'keys', 'values') and isinstance(
+                    mc[0], ast.Name) and mc[0].id.startswith('SYM_m'):
+                # the views of a dict built on this path are as empty as it
+                return self._coll_truth(mc[0], st)
         return self._coll_truth(it, st)
 
     def _branch_quant(self, q, prim, st, line):
